@@ -55,17 +55,39 @@ def run_history(case):
     m = Model()
     R, S = [], []
     originals = []  # (model that was deep-copied, its content and ids at that moment)
+    carried = None  # (model, its snapshot, its ids) as read after the previous op — nothing touched the model since
     for i, op in enumerate(ops):
         check = i >= start
-        before = O.snapshot(m) if check else None
-        ids_before = O.ids_of(m) if check else None
+        if check and carried is not None and carried[0] is m:
+            before, ids_before = carried[1], carried[2]
+        else:
+            before = O.snapshot(m) if check else None
+            ids_before = O.ids_of(m) if check else None
         ans = None
         out = "ok"
         if op[0] == "q":
             ans = O.run_query(m, op)
         elif op[0] == "fork":
-            originals.append((m, O.snapshot(m), O.ids_of(m)))
-            m = copy.deepcopy(m)
+            old = m
+            if len(op) > 1 and op[1] == "pickle":
+                import pickle
+
+                m = pickle.loads(pickle.dumps(old))  # noqa: S301
+            else:
+                m = copy.deepcopy(old)
+            # `==` between the copy and its original: True at once, and still True after a query has filled the
+            # cache of one of them only (the memoised cache is not part of a model's value)
+            eq_now = bool(m == old) and m is not old and (old._cache is None or m._cache is not old._cache)
+            probe = copy.deepcopy(old)  # a third model on which the cache state is flipped (old itself stays as it is)
+            try:
+                if probe._cache is None:
+                    probe.get_initial_conditions()
+                else:
+                    probe._cache = None
+            except Exception:  # noqa: BLE001
+                pass
+            eq_after = bool(m == probe) and bool(probe == m)
+            originals.append((old, O.snapshot(old), O.ids_of(old), eq_now, eq_after))
         else:
             try:
                 O.apply_mut(m, op)
@@ -76,6 +98,7 @@ def run_history(case):
         s = None
         if check:
             after = O.snapshot(m)
+            carried = (m, after, r["ids"])
             if out != "ok":
                 r["changed"] = after != before or r["ids"] != ids_before
             s = {"keys": r["keys"], "changed": False, "ans": None, "effect": "as documented"}
@@ -116,7 +139,13 @@ def run_history(case):
         # edits of a deep copy never reach the model it was copied from
         probe = ["q", "argsro", ["2", "3", "1"], "1"]
         bad = []
-        for j, (orig, snap, ids) in enumerate(originals):
+        for j, (orig, snap, ids, eq_now, eq_after) in enumerate(originals):
+            if not eq_now:
+                bad.append([j, "the copy is not equal to (or shares its cache with) the model it was copied from"])
+                continue
+            if not eq_after:
+                bad.append([j, "copy and original differ in == once only one of them has a cache"])
+                continue
             if O.snapshot(orig) != snap or O.ids_of(orig) != ids:
                 bad.append([j, "content or ids of the original changed"])
                 continue
@@ -436,13 +465,13 @@ def run(ctx):
               for e in list(ctx.fixed.values()) + list(ctx.known.values())
               if e.get("witness", {}).get("ops") and e["witness"]["ops"][0] != "BASE"]
     evaluate(ctx, corpus, judge)
-    evaluate(ctx, list(G.arity_histories()) + list(G.extra_histories()), judge)
+    evaluate(ctx, list(G.arity_histories()) + list(G.extra_histories()) + list(G.copy_histories()), judge)
     ctx.exhaustive = True
     thorough = ctx.tier == "thorough"
     cur = []
     for c in G.pairs(None if thorough else 2):
         cur.append(c)
-        if len(cur) == 400:
+        if len(cur) == 1600:  # few, large batches: every batch ends with a barrier (stragglers cost under load)
             evaluate(ctx, cur, judge)
             cur = []
     if cur:
